@@ -138,7 +138,7 @@ class FullRig:
             if self.protocol is not None:
                 try:
                     self.protocol.connection_lost(None)
-                except Exception as e:  # noqa
+                except BaseException as e:  # noqa
                     self.out.append({"o": "raised", "exc": type(e).__name__})
 
     # ------------------------------------------------------------------ loop control
@@ -230,7 +230,7 @@ class FullRig:
             return
         try:
             self.protocol.data_received(raw)
-        except Exception as e:  # noqa
+        except BaseException as e:  # noqa
             self.out.append({"o": "raised", "exc": type(e).__name__})
 
     async def tohost(self, fault="deliver", count=1):
@@ -331,7 +331,7 @@ class FullRig:
                 res = "ok"
             except BaseException as e:  # noqa
                 res = self._res(e)
-                if isinstance(e, (ConnectionError, OSError)):
+                if isinstance(e, (ConnectionError, OSError)) and not isinstance(e, asyncio.TimeoutError):
                     res = "connerr"
             self.out.append({"o": "edone", "k": k, "res": res})
         self.tasks[f"r{k}"] = asyncio.Task(run(), loop=self.loop, eager_start=True)
@@ -361,7 +361,7 @@ class FullRig:
                         self.loop.call_soon(self.protocol.connection_lost, None)
                 else:
                     self.protocol.connection_lost(ConnectionResetError("gone"))
-            except Exception as e:  # noqa
+            except BaseException as e:  # noqa
                 self.out.append({"o": "raised", "exc": type(e).__name__})
         self.loop.call_soon(do)
         await self.settle()
